@@ -191,6 +191,12 @@ def run(ctx):
                 "negative r": bytes([0x30, len(good) - 2]) + bytes([2, good[3], good[4] | 0x80]) + good[5:] if good[4] < 0x80 and good[4] != 0 else None,
                 "empty": b"",
                 "truncated": good[:-1],
+                # the numbers in other containers than SEQUENCE { INTEGER, INTEGER }: fixed-width r || s (64 bytes, the format of
+                # hardware modules), the same behind a 04 prefix, two bare INTEGERs without the SEQUENCE, an OCTET STRING pair
+                "raw r || s (64 bytes)": r.to_bytes(32, "big") + s.to_bytes(32, "big"),
+                "04 || r || s": b"\x04" + r.to_bytes(32, "big") + s.to_bytes(32, "big"),
+                "two bare INTEGERs": good[2:],
+                "SEQUENCE of two OCTET STRINGs": bytes([0x30, 68, 4, 32]) + r.to_bytes(32, "big") + bytes([4, 32]) + s.to_bytes(32, "big"),
             }
             dcases.append({"kind": "der", "d": c["d"], "mf": c["mf"], "mlen": c["mlen"], "der": good.hex(), "what": "valid", "want": True})
             for k, v in bad.items():
